@@ -357,15 +357,15 @@ theorem lawful_tagged (w : Nat) (cases : List (Nat × Option Codec)) (dflt : Opt
         cases hdf : dflt with
         | none => simp [hdf] at hw
         | some d =>
-          simp only [hdf] at hw he
+          simp only [hdf, Bool.and_eq_true, Bool.not_eq_true'] at hw he
+          obtain ⟨hr, hw⟩ := hw
+          simp only [hr, Bool.false_eq_true, if_false] at he
           split at he
           · cases he
-          · split at he
-            · cases he
-            · rename_i b1 e1
-              injection he with he; subst he
-              simp [tagged, List.append_assoc, decodeU_append w tag (b1 ++ r) ht, hco,
-                (hd d hdf).rt x b1 r hw e1]
+          · rename_i b1 e1
+            injection he with he; subst he
+            simp [tagged, List.append_assoc, decodeU_append w tag (b1 ++ r) ht, hco, hr,
+              (hd d hdf).rt x b1 r hw e1]
     | some o =>
       rw [hco] at hw he
       cases o with
@@ -402,14 +402,14 @@ theorem lawful_tagged (w : Nat) (cases : List (Nat × Option Codec)) (dflt : Opt
         cases hdf : dflt with
         | none => simp [hdf] at hw
         | some d =>
-          simp only [hdf] at hw he
+          simp only [hdf, Bool.and_eq_true, Bool.not_eq_true'] at hw he
+          obtain ⟨hr, hw⟩ := hw
+          simp only [hr, Bool.false_eq_true, if_false] at he
           split at he
           · cases he
-          · split at he
-            · cases he
-            · rename_i b1 e1
-              injection he with he; subst he
-              simp [tagged, hco, (hd d hdf).sz x b1 hw e1, toBE_length]
+          · rename_i b1 e1
+            injection he with he; subst he
+            simp [tagged, hco, (hd d hdf).sz x b1 hw e1, toBE_length]
     | some o =>
       rw [hco] at hw he
       cases o with
@@ -458,11 +458,14 @@ theorem lawful_tagged (w : Nat) (cases : List (Nat × Option Codec)) (dflt : Opt
         · rename_i _ d
           split at h
           · cases h
-          · rename_i x r2 hx
-            injection h with h; injection h with e1 e2; subst e1 e2
-            obtain ⟨wx, y, hy, _⟩ := (hd d rfl).dwf r1 x r2 hx
-            exact ⟨by simp [tagged, ht, hco, wx], toBE w tag ++ y,
-              by rw [hb, hy, List.append_assoc], hlen y⟩
+          · rename_i hr
+            split at h
+            · cases h
+            · rename_i x r2 hx
+              injection h with h; injection h with e1 e2; subst e1 e2
+              obtain ⟨wx, y, hy, _⟩ := (hd d rfl).dwf r1 x r2 hx
+              exact ⟨by simp [tagged, ht, hco, hr, wx], toBE w tag ++ y,
+                by rw [hb, hy, List.append_assoc], hlen y⟩
         · cases h
   nepos v b hn hw he := by
     have hw0 : 0 < w := by simpa [tagged] using hn
@@ -486,6 +489,116 @@ theorem lawful_tagged (w : Nat) (cases : List (Nat × Option Codec)) (dflt : Opt
           · injection he with he; subst he; exact key _
       · cases he
     · cases he
+
+/-- a reserved discriminant without a case of its own is refused before the payload is read -/
+theorem tagged_dec_reserved (w : Nat) (cases : List (Nat × Option Codec)) (d : Codec)
+    (reserved : Nat → Bool) (err : UInt8) (tag : Nat) (r : Bytes) (ht : tag < 256 ^ w)
+    (hco : caseOfC cases tag = none) (hr : reserved tag = true) :
+    (tagged w cases (some d) reserved err).dec (toBE w tag ++ r) = .error (.custom err) := by
+  simp [tagged, decodeU_append w tag r ht, hco, hr]
+
+/-- The tagged layer never refuses a well-formed value: its encoder succeeds unless the encoder of
+the selected payload codec fails on the (well-formed) payload, and then returns that error. -/
+theorem tagged_enc_wf (w : Nat) (cases : List (Nat × Option Codec)) (dflt : Option Codec)
+    (reserved : Nat → Bool) (err : UInt8) (v : Value)
+    (hw : (tagged w cases dflt reserved err).wf v = true) :
+    (∃ b, (tagged w cases dflt reserved err).enc v = .ok b) ∨
+    ∃ tag x c e, v = .variant tag (some x) ∧
+      (caseOfC cases tag = some (some c) ∨ (caseOfC cases tag = none ∧ dflt = some c)) ∧
+      c.wf x = true ∧ c.enc x = .error e ∧
+      (tagged w cases dflt reserved err).enc v = .error e := by
+  cases v <;> simp only [tagged] at hw <;> try (cases hw; done)
+  rename_i tag p
+  simp only [Bool.and_eq_true, decide_eq_true_eq] at hw
+  obtain ⟨ht, hw⟩ := hw
+  cases hco : caseOfC cases tag with
+  | none =>
+    rw [hco] at hw
+    cases p with
+    | none => simp at hw
+    | some x =>
+      cases hdf : dflt with
+      | none => simp [hdf] at hw
+      | some d =>
+        simp only [hdf, Bool.and_eq_true, Bool.not_eq_true'] at hw
+        obtain ⟨hr, hw⟩ := hw
+        cases he : d.enc x with
+        | ok b1 => exact .inl ⟨toBE w tag ++ b1, by simp [tagged, ht, hco, hr, he]⟩
+        | error e =>
+          exact .inr ⟨tag, x, d, e, rfl, .inr ⟨hco, rfl⟩, hw, he, by simp [tagged, ht, hco, hr, he]⟩
+  | some o =>
+    rw [hco] at hw
+    cases o with
+    | none =>
+      cases p with
+      | some x => simp at hw
+      | none => exact .inl ⟨toBE w tag, by simp [tagged, ht, hco]⟩
+    | some c =>
+      cases p with
+      | none => simp at hw
+      | some x =>
+        simp only at hw
+        cases he : c.enc x with
+        | ok b1 => exact .inl ⟨toBE w tag ++ b1, by simp [tagged, ht, hco, he]⟩
+        | error e =>
+          exact .inr ⟨tag, x, c, e, rfl, .inl hco, hw, he, by simp [tagged, ht, hco, he]⟩
+
+/-! ## Decoded values can be encoded again -/
+
+/-- every value the decoder yields is accepted by the encoder -/
+def Reenc (c : Codec) : Prop := ∀ b v r, c.dec b = .ok (v, r) → ∃ x, c.enc v = .ok x
+
+theorem reenc_ofSchema (s : Schema) (hc : Canon s = true) : Reenc (ofSchema s) := by
+  intro b v r h
+  obtain ⟨_, c, _, _, he, _⟩ := decSpec_all s b v r h
+  exact ⟨c, he hc⟩
+
+theorem reenc_refine (c : Codec) (p : Value → Bool) (err : UInt8) (hc : Reenc c) :
+    Reenc (refine c p err) := by
+  intro b v r h
+  simp only [refine] at h
+  split at h
+  · cases h
+  · rename_i x r' hd
+    split at h
+    · injection h with h; injection h with e1 e2; subst e1 e2
+      exact hc b x r' hd
+    · cases h
+
+theorem reenc_tagged (w : Nat) (cases : List (Nat × Option Codec)) (dflt : Option Codec)
+    (reserved : Nat → Bool) (err : UInt8)
+    (hc : ∀ t c, (t, some c) ∈ cases → Reenc c) (hd : ∀ d, dflt = some d → Reenc d) :
+    Reenc (tagged w cases dflt reserved err) := by
+  intro b v r h
+  simp only [tagged] at h
+  split at h
+  · cases h
+  · rename_i tag r1 hu
+    obtain ⟨ht, _⟩ := decodeU_ok hu
+    split at h
+    · rename_i hco
+      injection h with h; injection h with e1 e2; subst e1 e2
+      exact ⟨toBE w tag, by simp [tagged, ht, hco]⟩
+    · rename_i c hco
+      split at h
+      · cases h
+      · rename_i x r2 hx
+        injection h with h; injection h with e1 e2; subst e1 e2
+        obtain ⟨y, hy⟩ := hc tag c (caseOfC_mem hco) r1 x r2 hx
+        exact ⟨toBE w tag ++ y, by simp [tagged, ht, hco, hy]⟩
+    · rename_i hco
+      split at h
+      · rename_i _ d
+        split at h
+        · cases h
+        · rename_i hr
+          split at h
+          · cases h
+          · rename_i x r2 hx
+            injection h with h; injection h with e1 e2; subst e1 e2
+            obtain ⟨y, hy⟩ := hd d rfl r1 x r2 hx
+            exact ⟨toBE w tag ++ y, by simp [tagged, ht, hco, hr, hy]⟩
+      · cases h
 
 /-! ## zeroPadded -/
 
@@ -691,6 +804,25 @@ theorem lawful_extensionList : Lawful extensionList where
   nepos v b _ hw he := by
     obtain ⟨es, rfl, hwf, _⟩ := extensionList_wf_inv hw
     exact nonEmpty_pos (.vec extensionSchema) (.list es) b (by decide) hwf he
+
+/-- whatever `ExtensionList::mls_decode` accepts, the derived decoder accepts with the same result,
+hence (the schema is canonical) the derived encoder writes it back -/
+theorem reenc_extensionList : Reenc extensionList := by
+  intro b v r h
+  simp only [extensionList] at h
+  split at h
+  · cases h
+  · rename_i es r' hd
+    injection h with h; injection h with e1 e2; subst e1 e2
+    obtain ⟨data, hlen, hb, hi⟩ := decodeCollection_ok hd
+    obtain ⟨xs, hrel, hs⟩ := rel_of_loopNG data.length data [] es (Nat.le_refl _) hi
+    obtain ⟨h1, _⟩ := stepAll_ext_inv xs [] es hs
+    simp only [List.nil_append] at h1; subst h1
+    have hdec : decode (.vec extensionSchema) b = .ok (.list es, r') := by
+      subst hb
+      simp [decode, decodeCollection, List.append_assoc, decodeSplit_append data r' hlen,
+        decodeLoop_of_rel hrel]
+    exact reenc_ofSchema (.vec extensionSchema) (by decide) b _ r' hdec
 
 /-! ## SecretKeyRatchet history -/
 
